@@ -231,6 +231,10 @@ def check_property(prop, modname, tier='quick', native=None, workers=None, extra
             (r.get('error') and False)
         canaries.append({'canary': cname, 'unit': uname, 'function': c.qual, 'killed': bool(killed),
                          'failing_obligations': failed[:6], 'error': r.get('error')})
+        if not killed and (r.get('error') or '').startswith(('canary mutation did not apply', 'Unresolved')):
+            # the source no longer has the shape this canary mutates (edited tree): not a verdict
+            canaries[-1]['not_applicable'] = True
+            continue
         if not killed:
             crashes.append((uname, 'canary %s survived (expected a failure of %s; got %s; error=%s)'
                             % (cname, c.expect, failed[:4], r.get('error'))))
@@ -270,7 +274,10 @@ def check_property(prop, modname, tier='quick', native=None, workers=None, extra
     for name, uname, a in violations:
         u = [x for x in units if x.name == uname][0]
         replayed = None
-        rp = getattr(mod, 'REPLAY', {}).get(name) or getattr(mod, 'REPLAY', {}).get(uname)
+        rp = None
+        for pref, fn in getattr(mod, 'REPLAY', {}).items():
+            if name.startswith(pref) or uname == pref:
+                rp = fn
         if rp is not None and a.get('model') is not None:
             try:
                 replayed = rp(a['model'], name)
@@ -352,7 +359,9 @@ def check_property(prop, modname, tier='quick', native=None, workers=None, extra
     print('%s: %d/%d obligations discharged, %d canaries killed, %d known findings, %d violations, exit %d (%.1fs)'
           % (prop, n_dis, n_ob, sum(1 for c in canaries if c['killed']), len(set(f_.get('id') for f_, _ in known_hit)), nviol,
              exit_code, time.time() - t0))
-    if os.environ.get('VERIF_ACCEPT') == '1' and exit_code == 0:
+    if os.environ.get('VERIF_ACCEPT') == '1' and any(c.get('not_applicable') for c in canaries):
+        print('NOT ACCEPTED: canaries not applicable on this tree: %s' % [c['canary'] for c in canaries if c.get('not_applicable')])
+    elif os.environ.get('VERIF_ACCEPT') == '1' and exit_code == 0:
         os.makedirs(os.path.join(VERIF, 'baseline'), exist_ok=True)
         with open(baseline_path, 'w') as f:
             json.dump({'property': prop, 'obligations': sorted(o['name'] for o in ob_list if o['discharged'])},
